@@ -59,3 +59,26 @@ def restore(M):
                 delattr(owner, attr)
             except Exception:   # noqa
                 pass
+
+
+def diff(M, ignore=()):
+    """names of the process-wide containers (module globals, class attributes) whose content differs from the state of a freshly started process, plus containers
+    that did not exist then"""
+    out = []
+    known = set()
+    for owner, attr, val in _SNAP.get(M.kind, []):
+        known.add((id(owner), attr))
+        name = '%s.%s' % (getattr(owner, '__name__', str(owner)), attr)
+        if name in ignore:
+            continue
+        cur = owner.__dict__.get(attr) if isinstance(owner, type) else getattr(owner, attr, None)
+        try:
+            same = (cur == val)
+        except Exception:   # noqa
+            same = False
+        if not same:
+            out.append(name)
+    for owner, attr, val in list(_targets(M)):
+        if (id(owner), attr) not in known:
+            out.append('%s.%s (new)' % (getattr(owner, '__name__', str(owner)), attr))
+    return sorted(out)
